@@ -105,3 +105,397 @@ def removals (log : List (Event κ)) (k : κ) : Nat := log.countP (Event.isRemov
 def outcome (s : State κ) (f : Nat) : Option Status := (s.flights[f]?).map (·.status)
 
 end Prepare
+
+/-!
+## Connection level (C14, session tier)
+
+`PConn`: executions on real connections. Callers (`Session.Query(..).Exec`, `ExecuteBatch`) run
+`Conn.executeQuery` / `executeBatch`: for every prepared entry `prepareStatement` (lookup-or-insert, then
+wait for the flight), value-count check, one EXECUTE / BATCH frame, and on UNPREPARED `evictPreparedID`
+followed by a restart. The flight's goroutine sends the PREPARE; the server answers it; the goroutine
+completes the flight (on failure: remove the KEY, then close `done`).
+
+The cache is a finite map here and capacity eviction is the environment action `evict` (any cached key,
+any time): every LRU eviction is such an action, so what is proved for all schedules of this machine holds
+for every cache size and every LRU order. (`Model/LRU.lean` + the sequential tier cover which key the LRU
+picks.)
+
+Hidden driver actions: `lookup`, `complete`, `observe` (the part before the frame), `finish`.
+Observable events (`Ev`): what the harness can log in a total order consistent with the code's own
+synchronisation — the call starts and returns (caller side), the PREPARE / EXECUTE / BATCH frames with the
+answers the scripted server chose (server side), and every removal from the cache (`lru.Cache.OnEvicted`,
+called under the cache mutex).
+
+`Obs`: the observable-level specification — an acceptor over `Ev` only, whose enabledness conditions are
+the clauses of the property (ids belong to the statement and are not superseded, single flight, failures
+reported but not remembered, value count). `Proofs/C14Conn.lean` proves that every schedule of `PConn`
+produces a trace that `Obs` accepts; the harness feeds the traces observed on real Sessions to `Obs`.
+-/
+namespace PConn
+
+abbrev Id := List UInt8
+
+/-- the server's answer to a PREPARE: `none` = ERROR frame, `some (id, ncols)` = RESULT/Prepared with
+    that id and that many bind columns -/
+abbrev PAns := Option (Id × Nat)
+
+/-- the server's answer to an EXECUTE / BATCH frame -/
+inductive XAns
+  | ok
+  | err
+  | unprep (id : Id)
+  deriving DecidableEq, Repr
+
+/-- what a call returns -/
+inductive Outcome
+  | ok
+  | execErr
+  | prepErr (f : Nat)      -- the failure of PREPARE number f
+  | countErr               -- "expected n values send got m"
+  deriving DecidableEq, Repr
+
+inductive Ev (κ : Type)
+  | start (c : Nat) (batch : Bool) (es : List (κ × Nat))   -- call c begins: entries (key, number of bound values)
+  | prep (f : Nat) (k : κ) (r : PAns)                      -- the server received PREPARE number f for key k, answers r
+  | rm (k : κ) (f : Nat)                                   -- flight f left the cache (OnEvicted)
+  | exec (c : Nat) (ids : List Id) (a : XAns)              -- the server received call c's EXECUTE/BATCH with these ids, answers a
+  | ret (c : Nat) (o : Outcome)                            -- call c returned
+  | crash                                                  -- nil dereference in evictPreparedID
+  | hang (c : Nat)                                         -- harness only: call c did not return although every frame was answered
+  deriving DecidableEq
+
+structure Flight (κ : Type) where
+  key     : κ
+  ans     : Option PAns    -- none: the PREPARE has not reached the server yet
+  done    : Bool           -- close(flight.done) happened
+  removed : Bool           -- (ghost) the entry has left the cache
+
+inductive PC
+  | start                  -- about to call prepareStatement for entry number `got.length`
+  | waiting (f : Nat)      -- inside prepareStatement, selecting on flight f's done channel
+  | answered (a : XAns)    -- frame sent, the server has chosen its answer
+  | returned
+  deriving DecidableEq
+
+structure Caller (κ : Type) where
+  batch   : Bool
+  entries : List (κ × Nat)
+  got     : List Nat       -- flights whose prepared statement was taken for entries 0 .. got.length-1
+  pc      : PC
+  banned  : Nat → Bool     -- (ghost) the flights already removed when the call started / sent its last frame
+
+structure State (κ : Type) where
+  cache   : κ → Option Nat
+  flights : List (Flight κ)
+  callers : List (Caller κ)
+
+inductive Action (κ : Type)
+  | call (batch : Bool) (es : List (κ × Nat))
+  | lookup (c : Nat)
+  | evict (k : κ)
+  | srvPrepare (f : Nat) (r : PAns)
+  | complete (f : Nat)
+  | observe (c : Nat) (a : XAns)     -- `a`: the server's answer if this step sends the frame
+  | finish (c : Nat)
+
+variable {κ : Type} [DecidableEq κ]
+
+def init : State κ := { cache := fun _ => none, flights := [], callers := [] }
+
+def isRemoved (s : State κ) (f : Nat) : Bool :=
+  match s.flights[f]? with
+  | some fl => fl.removed
+  | none => false
+
+def idOf (s : State κ) (f : Nat) : Id :=
+  match s.flights[f]? with
+  | some fl => match fl.ans with
+    | some (some (id, _)) => id
+    | _ => []
+  | none => []
+
+/-- lru.Remove(key): whatever flight sits there leaves the cache -/
+def removeKey (s : State κ) (k : κ) : State κ × List (Ev κ) :=
+  match s.cache k with
+  | none => (s, [])
+  | some g =>
+    match s.flights[g]? with
+    | none => (s, [])
+    | some fl =>
+      ({ s with cache := fun k' => if k' = k then none else s.cache k',
+                flights := s.flights.set g { fl with removed := true } }, [.rm k g])
+
+/-- close(flight.done) -/
+def setDone (s : State κ) (f : Nat) : State κ :=
+  match s.flights[f]? with
+  | none => s
+  | some fl => { s with flights := s.flights.set f { fl with done := true } }
+
+/-- evictPreparedID(key, id): only a finished flight whose id equals the server's is removed; a finished
+    flight without prepared statement would be a nil dereference -/
+def evictIfMatch (s : State κ) (k : κ) (id : Id) : State κ × List (Ev κ) :=
+  match s.cache k with
+  | none => (s, [])
+  | some g =>
+    match s.flights[g]? with
+    | none => (s, [])
+    | some fl =>
+      if fl.done then
+        match fl.ans with
+        | some (some (id', _)) => if id = id' then removeKey s k else (s, [])
+        | _ => (s, [.crash])
+      else (s, [])
+
+/-- executeQuery: the statement's own key; executeBatch: `stmts[string(x.StatementId)]`, the map filled in
+    entry order (a later entry with the same id overwrites) -/
+def unprepKey (s : State κ) (cl : Caller κ) (id : Id) : Option κ :=
+  if cl.batch then
+    ((cl.entries.zip cl.got).reverse.find? (fun e => idOf s e.2 = id)).map (·.1.1)
+  else cl.entries.head?.map (·.1)
+
+def step (s : State κ) : Action κ → Option (State κ × List (Ev κ))
+  | .call b es =>
+    if es = [] then none
+    else some ({ s with callers := s.callers ++ [{ batch := b, entries := es, got := [], pc := .start,
+                                                   banned := isRemoved s }] },
+               [.start s.callers.length b es])
+  | .lookup c =>
+    match s.callers[c]? with
+    | none => none
+    | some cl =>
+      if cl.pc = .start then
+        match cl.entries[cl.got.length]? with
+        | none => none
+        | some e =>
+          match s.cache e.1 with
+          | some f => some ({ s with callers := s.callers.set c { cl with pc := .waiting f } }, [])
+          | none =>
+            let f := s.flights.length
+            some ({ cache := fun k' => if k' = e.1 then some f else s.cache k',
+                    flights := s.flights ++ [{ key := e.1, ans := none, done := false, removed := false }],
+                    callers := s.callers.set c { cl with pc := .waiting f } }, [])
+      else none
+  | .evict k =>
+    match s.cache k with
+    | none => none
+    | some _ => some (removeKey s k)
+  | .srvPrepare f r =>
+    match s.flights[f]? with
+    | none => none
+    | some fl =>
+      if fl.ans = none then
+        some ({ s with flights := s.flights.set f { fl with ans := some r } }, [.prep f fl.key r])
+      else none
+  | .complete f =>
+    match s.flights[f]? with
+    | none => none
+    | some fl =>
+      match fl.ans with
+      | none => none
+      | some r =>
+        if fl.done then none
+        else
+          match r with
+          | some _ => some (setDone s f, [])
+          | none =>
+            -- flight.err = err; stmtsLRU.remove(key); (deferred) close(flight.done)
+            let r1 := removeKey s fl.key
+            some (setDone r1.1 f, r1.2)
+  | .observe c a =>
+    match s.callers[c]? with
+    | none => none
+    | some cl =>
+      match cl.pc with
+      | .waiting f =>
+        match s.flights[f]?, cl.entries[cl.got.length]? with
+        | some fl, some e =>
+          if fl.done then
+            match fl.ans with
+            | some none =>
+              some ({ s with callers := s.callers.set c { cl with pc := .returned } }, [.ret c (.prepErr f)])
+            | some (some (_, nc)) =>
+              if e.2 ≠ nc then
+                some ({ s with callers := s.callers.set c { cl with pc := .returned } }, [.ret c .countErr])
+              else if (cl.got ++ [f]).length = cl.entries.length then
+                some ({ s with callers := s.callers.set c { cl with got := cl.got ++ [f], pc := .answered a,
+                                                                     banned := isRemoved s } },
+                      [.exec c ((cl.got ++ [f]).map (idOf s)) a])
+              else
+                some ({ s with callers := s.callers.set c { cl with got := cl.got ++ [f], pc := .start } }, [])
+            | none => none
+          else none
+        | _, _ => none
+      | _ => none
+  | .finish c =>
+    match s.callers[c]? with
+    | none => none
+    | some cl =>
+      match cl.pc with
+      | .answered .ok =>
+        some ({ s with callers := s.callers.set c { cl with pc := .returned } }, [.ret c .ok])
+      | .answered .err =>
+        some ({ s with callers := s.callers.set c { cl with pc := .returned } }, [.ret c .execErr])
+      | .answered (.unprep id) =>
+        let r := match unprepKey s cl id with
+          | some k => evictIfMatch s k id
+          | none => (s, [])
+        some ({ r.1 with callers := r.1.callers.set c { cl with got := [], pc := .start } }, r.2)
+      | _ => none
+
+/-- run a schedule, collecting the observable trace -/
+def run (s : State κ) : List (Action κ) → Option (State κ × List (Ev κ))
+  | [] => some (s, [])
+  | a :: as =>
+    match step s a with
+    | none => none
+    | some (s', evs) =>
+      match run s' as with
+      | none => none
+      | some (s'', evs') => some (s'', evs ++ evs')
+
+end PConn
+
+/-! ### the observable-level specification -/
+namespace Obs
+open PConn
+
+structure OFlight (κ : Type) where
+  key     : κ
+  ans     : Option PAns     -- none: removed from the cache before its PREPARE reached the server
+  removed : Bool
+
+inductive OPC
+  | active
+  | awaiting (a : XAns)
+  | returned
+  deriving DecidableEq
+
+/-- may send a frame / return a prepare-side error: running, or restarted by an UNPREPARED answer -/
+def OPC.live : OPC → Bool
+  | .active => true
+  | .awaiting (.unprep _) => true
+  | _ => false
+
+structure OCaller (κ : Type) where
+  entries : List (κ × Nat)
+  pc      : OPC
+  banned  : Nat → Bool
+
+structure OState (κ : Type) where
+  flights : Nat → Option (OFlight κ)
+  known   : List Nat
+  callers : List (OCaller κ)
+  /-- `1 + #rm(k) − #prep(k)`: how many more PREPAREs of k the removals seen so far allow -/
+  credit  : κ → Nat
+
+variable {κ : Type} [DecidableEq κ]
+
+def init : OState κ := { flights := fun _ => none, known := [], callers := [], credit := fun _ => 1 }
+
+def removedNow (o : OState κ) (f : Nat) : Bool :=
+  match o.flights f with
+  | some fl => fl.removed
+  | none => false
+
+/-- flight f justifies sending id `id` for an entry (k, n) of a caller with ban list b: it is a PREPARE of
+    exactly k that the server answered with `id` and n bind columns, and it had not been removed from the
+    cache when the caller started / sent its previous frame -/
+def justifies (o : OState κ) (b : Nat → Bool) (k : κ) (n : Nat) (id : Id) (f : Nat) : Bool :=
+  !b f && match o.flights f with
+    | some fl => decide (fl.key = k) && decide (fl.ans = some (some (id, n)))
+    | none => false
+
+def okEntries (o : OState κ) (b : Nat → Bool) : List (κ × Nat) → List Id → Bool
+  | [], [] => true
+  | e :: es, id :: ids => o.known.any (justifies o b e.1 e.2 id) && okEntries o b es ids
+  | _, _ => false
+
+/-- some entry's value count differs from the bind column count of a justified PREPARE of its statement -/
+def countMismatch (o : OState κ) (cl : OCaller κ) : Bool :=
+  cl.entries.any fun e => o.known.any fun f =>
+    !cl.banned f && match o.flights f with
+      | some fl => decide (fl.key = e.1) && (match fl.ans with
+          | some (some (_, nc)) => decide (nc ≠ e.2)
+          | _ => false)
+      | none => false
+
+def hasKey (es : List (κ × Nat)) (k : κ) : Bool := es.any (fun e => decide (e.1 = k))
+
+def setPc (o : OState κ) (c : Nat) (cl : OCaller κ) (pc : OPC) : OState κ :=
+  { o with callers := o.callers.set c { cl with pc := pc } }
+
+def step (o : OState κ) : Ev κ → Option (OState κ)
+  | .start c _ es =>
+    if c = o.callers.length ∧ es ≠ [] then
+      some { o with callers := o.callers ++ [{ entries := es, pc := .active, banned := removedNow o }] }
+    else none
+  | .prep f k r =>
+    -- single flight: at most one more PREPARE of k than entries of k that left the cache; somebody is executing k
+    if 0 < o.credit k ∧ o.callers.any (fun cl => cl.pc.live && hasKey cl.entries k) then
+      match o.flights f with
+      | none =>
+        some { o with flights := fun g => if g = f then some { key := k, ans := some r, removed := false } else o.flights g,
+                      known := f :: o.known,
+                      credit := fun k' => if k' = k then o.credit k - 1 else o.credit k' }
+      | some fl =>
+        if fl.key = k ∧ fl.ans = none then
+          some { o with flights := fun g => if g = f then some { fl with ans := some r } else o.flights g,
+                        credit := fun k' => if k' = k then o.credit k - 1 else o.credit k' }
+        else none
+    else none
+  | .rm k f =>
+    match o.flights f with
+    | none =>
+      some { o with flights := fun g => if g = f then some { key := k, ans := none, removed := true } else o.flights g,
+                    known := f :: o.known,
+                    credit := fun k' => if k' = k then o.credit k + 1 else o.credit k' }
+    | some fl =>
+      if fl.key = k ∧ fl.removed = false then
+        some { o with flights := fun g => if g = f then some { fl with removed := true } else o.flights g,
+                      credit := fun k' => if k' = k then o.credit k + 1 else o.credit k' }
+      else none
+  | .exec c ids a =>
+    match o.callers[c]? with
+    | none => none
+    | some cl =>
+      if cl.pc.live ∧ okEntries o cl.banned cl.entries ids then
+        some { o with callers := o.callers.set c { cl with pc := .awaiting a, banned := removedNow o } }
+      else none
+  | .ret c out =>
+    match o.callers[c]? with
+    | none => none
+    | some cl =>
+      match out with
+      | .ok => if cl.pc = .awaiting .ok then some (setPc o c cl .returned) else none
+      | .execErr => if cl.pc = .awaiting .err then some (setPc o c cl .returned) else none
+      | .prepErr f =>
+        -- a failure is reported only once it has left the cache, and never to a call that began afterwards
+        if cl.pc.live ∧ cl.banned f = false then
+          match o.flights f with
+          | some fl =>
+            if hasKey cl.entries fl.key ∧ fl.ans = some none ∧ fl.removed = true then some (setPc o c cl .returned) else none
+          | none => none
+        else none
+      | .countErr => if cl.pc.live ∧ countMismatch o cl then some (setPc o c cl .returned) else none
+  | .crash => none
+  | .hang _ => none
+
+def run (o : OState κ) : List (Ev κ) → Option (OState κ)
+  | [] => some o
+  | e :: es => match step o e with
+    | none => none
+    | some o' => run o' es
+
+/-- number of the first rejected event (diagnostics for the driver) -/
+def firstReject (o : OState κ) : List (Ev κ) → Nat → Option (Nat × OState κ)
+  | [], _ => none
+  | e :: es, i => match step o e with
+    | none => some (i, o)
+    | some o' => firstReject o' es (i + 1)
+
+def prepCount (k : κ) (tr : List (Ev κ)) : Nat :=
+  tr.countP fun | .prep _ k' _ => decide (k' = k) | _ => false
+def rmCount (k : κ) (tr : List (Ev κ)) : Nat :=
+  tr.countP fun | .rm k' _ => decide (k' = k) | _ => false
+
+end Obs
